@@ -178,8 +178,14 @@ pub fn account(agg: &mut Agg, job: &Job, sub: u64, plan: &Plan, image: &[u8], re
             // cell = (fault description class) x outcome class
             for e in &plan.edits {
                 let cls: String = match &job.kind {
-                    JobKind::Cells { cells, fields, .. } => {
-                        let (fi, v) = cells[sub as usize];
+                    JobKind::Cells { cells, pairs, fields, .. } => {
+                        let (fi, v) = if (sub as usize) < cells.len() {
+                            cells[sub as usize]
+                        } else {
+                            agg.inc("cell-pairs", 1);
+                            let pr = pairs[sub as usize - cells.len()];
+                            if e.off == fields[pr[0].0].off { pr[0] } else { pr[1] }
+                        };
                         let fd = &fields[fi];
                         agg.inc(&format!("cell:{}.{}:{}", fd.chunk, fd.name, fd.kind.name()), 1);
                         format!("{}.{}:{}", fd.chunk, fd.name, value_class(fd.width, v))
@@ -350,12 +356,41 @@ pub fn run_worker(a: WorkerArgs) {
                 .stack_size(exec::STACK)
                 .name("job".into())
                 .spawn_scoped(s, move || {
+                    let mut recent: std::collections::VecDeque<Plan> = Default::default();
                     for sub in start..jobr.len() {
                         CUR.with(|c| c.set((jobr.id, sub)));
                         emit(&format!("B {} {}", jobr.id, sub));
                         let plan = jobr.plan(ctxr, sub);
                         let image = plan.image();
-                        let rep = exec::run_plan_inline(&plan, false);
+                        let mut rep = exec::run_plan_inline(&plan, false);
+                        let mut history: Vec<Plan> = Vec::new();
+                        if let Some(v) = &rep.violation {
+                            // Does it reproduce on a fresh thread, without what earlier runs may have
+                            // left behind on this one? If not, the history is part of the replay.
+                            let sig = v.signature();
+                            let alone = exec::run_plan(&plan, false);
+                            let same = alone.violation.as_ref().map(|x| x.signature() == sig).unwrap_or(false);
+                            if !same {
+                                let mut with_hist = plan.clone();
+                                with_hist.prelude = recent.iter().cloned().collect();
+                                let again = exec::run_plan(&with_hist, false);
+                                if again.violation.as_ref().map(|x| x.signature() == sig).unwrap_or(false) {
+                                    history = with_hist.prelude;
+                                    aggr.inc("probe:violation-needs-history-of-earlier-loads", 1);
+                                } else if alone.violation.is_some() {
+                                    rep = alone; // a different but isolated violation: report that one
+                                } else {
+                                    history = with_hist.prelude;
+                                    aggr.inc("probe:violation-not-reproduced-on-a-fresh-thread", 1);
+                                }
+                            }
+                        }
+                        if matches!(plan.mode.as_str(), "reader" | "load" | "use" | "mem" | "threads") && plan.base.len() <= 64 << 10 {
+                            if recent.len() >= 2 {
+                                recent.pop_front();
+                            }
+                            recent.push_back(plan.clone());
+                        }
                         account(aggr, jobr, sub, &plan, &image, &rep);
                         if let Some(d) = dumpr.as_mut() {
                             let _ = writeln!(d, "{} {} {:016x}", jobr.id, sub, rep.facts.digest);
@@ -365,6 +400,7 @@ pub fn run_worker(a: WorkerArgs) {
                             *vw += 1;
                             if *vw <= 40 {
                                 let mut plan = plan.clone();
+                                plan.prelude = history;
                                 // make the replay explicit
                                 if let Some(op) = &rep.facts.sample {
                                     if plan.mode == "use" {
